@@ -329,6 +329,7 @@ func crashViolation(prop string, r Result) (Violation, bool) {
 		// the two access stacks start with "<Access> at 0x... by goroutine N:"
 		var tops []string
 		var writes []bool
+		harnessInner := 0
 		lines := strings.Split(rep, "\n")
 		for i := 0; i < len(lines); i++ {
 			ln := strings.TrimSpace(lines[i])
@@ -343,9 +344,11 @@ func crashViolation(prop string, r Result) (Violation, bool) {
 					break
 				}
 				if j == i+1 && strings.HasPrefix(f, "verif/") {
-					// the access itself sits in harness code (a scenario variable shared
-					// between harness goroutines): harness trouble, not a finding
-					return Violation{}, false
+					// this access sits in harness code. If both do, it is a scenario variable
+					// shared between harness goroutines: harness trouble. If only one does, the
+					// application touched memory the library also touches (a public field): that
+					// is the library's race, classed by the library side below.
+					harnessInner++
 				}
 				if strings.HasPrefix(f, "github.com/gopcua/opcua") && !strings.Contains(f, "/simhook.") {
 					top = strings.TrimPrefix(strings.TrimSuffix(f, "()"), "github.com/gopcua/opcua")
@@ -354,6 +357,9 @@ func crashViolation(prop string, r Result) (Violation, bool) {
 				}
 			}
 			tops = append(tops, top)
+		}
+		if harnessInner >= 2 {
+			return Violation{}, false
 		}
 		var repo []string
 		for _, t := range tops {
